@@ -28,7 +28,10 @@ def sh(cmd, **kw):
 
 def one(name):
     sd = VERIF / 'seeded' / name
-    pid = json.loads((sd / 'meta.json').read_text())['property']
+    meta = json.loads((sd / 'meta.json').read_text())
+    pid = meta['property']
+    if meta.get('superseded'):
+        return name, pid, 'superseded', meta['superseded'][:200]
     tmp = Path(tempfile.mkdtemp(prefix=f'seedreg-{name}-'))
     wt = tmp / 'wt'
     try:
@@ -58,7 +61,7 @@ def main():
             print(f'{name:6s} {pid} {verdict:15s} {detail[:200]}', flush=True)
             res[name] = {'property': pid, 'verdict': verdict, 'detail': detail}
     (VERIF / 'seeded' / 'REGRESSION.json').write_text(json.dumps(res, indent=1))
-    return 0 if all(v['verdict'] == 'caught' for v in res.values()) else 1
+    return 0 if all(v['verdict'] in ('caught', 'superseded') for v in res.values()) else 1
 
 
 if __name__ == '__main__':
